@@ -512,6 +512,45 @@ theorem scaledRotBatch_itemwise (detK : Mat3 ℝ → ℝ) (rtol atol : ℝ) (Rs 
     exact this R (by simp)
 
 
+/-! ## 6. the optional arguments: what the result may and may not depend on -/
+
+/-- on valid input the result does not depend on `check` nor on `rtol` (nor on the way they were passed): any two
+admissible settings give the same element -/
+theorem mat2SO3_matrix_indep (detK : Mat3 ℝ → ℝ) (hdet : ∀ M, detK M = M.det) (check check' : Bool)
+    (rtol rtol' atol : ℝ) (hr : 0 ≤ rtol) (hr' : 0 ≤ rtol') (ha0 : 0 ≤ atol) (ha1 : atol < 1) (p : Quat ℝ)
+    (h : p.normSq = 1) :
+    mat2SO3 detK check rtol atol (SO3matrix p) = mat2SO3 detK check' rtol' atol (SO3matrix p) := by
+  rw [mat2SO3_matrix detK hdet check rtol atol hr ha0 ha1 p h, mat2SO3_matrix detK hdet check' rtol' atol hr' ha0 ha1 p h]
+
+/-- … and changing `atol` (which also moves the mask threshold) changes at most the sign of the quaternion -/
+theorem mat2SO3_matrix_indep_atol (detK : Mat3 ℝ → ℝ) (hdet : ∀ M, detK M = M.det) (check check' : Bool)
+    (rtol rtol' atol atol' : ℝ) (hr : 0 ≤ rtol) (hr' : 0 ≤ rtol') (ha0 : 0 ≤ atol) (ha1 : atol < 1)
+    (ha0' : 0 ≤ atol') (ha1' : atol' < 1) (p : Quat ℝ) (h : p.normSq = 1) :
+    ∃ q q', mat2SO3 detK check rtol atol (SO3matrix p) = .ok q ∧ mat2SO3 detK check' rtol' atol' (SO3matrix p) = .ok q' ∧
+      (q = q' ∨ q = q'.neg) := by
+  refine ⟨canonQ atol p, canonQ atol' p, mat2SO3_matrix detK hdet check rtol atol hr ha0 ha1 p h,
+    mat2SO3_matrix detK hdet check' rtol' atol' hr' ha0' ha1' p h, ?_⟩
+  rcases canonQ_cases atol p with a | a <;> rcases canonQ_cases atol' p with b | b <;> rw [a, b]
+  · left; rfl
+  · right; exact (Quat.neg_neg' p).symm
+  · right; rfl
+  · left; rfl
+
+/-- the two tolerances are **not** interchangeable: the sheared matrix `1 + 3·10⁻⁴·e₀e₁ᵀ` is rejected with
+`(rtol, atol) = (10⁻², 10⁻⁵)` and accepted with the two swapped — an implementation (or a caller) that passes them in
+the wrong order is observably different -/
+theorem check_tolerances_not_symmetric :
+    orthOk (1 / 100) (1 / 100000) (⟨⟨1, 3 / 10000, 0⟩, ⟨0, 1, 0⟩, ⟨0, 0, 1⟩⟩ : Mat3 ℝ) = false ∧
+    orthOk (1 / 100000) (1 / 100) (⟨⟨1, 3 / 10000, 0⟩, ⟨0, 1, 0⟩, ⟨0, 0, 1⟩⟩ : Mat3 ℝ) = true ∧
+    detOk (1 / 100000) (1 / 100) (⟨⟨1, 3 / 10000, 0⟩, ⟨0, 1, 0⟩, ⟨0, 0, 1⟩⟩ : Mat3 ℝ).det = true := by
+  refine ⟨?_, ?_, ?_⟩
+  · apply Bool.eq_false_iff.mpr; intro hok
+    have h := ((orthOk_iff _ _ _).mp hok).2.1
+    revert h; lie_unfold; norm_num [abs_of_pos]
+  · rw [orthOk_iff]; lie_unfold; norm_num [abs_of_pos, abs_of_nonneg]
+  · rw [detOk_iff]; lie_unfold; norm_num
+
+
 /-! ### non-vacuity: the hypotheses are satisfiable by non-trivial values -/
 
 /-- rotation by exactly π about the x axis (`w = 0`): region 0, recovered exactly -/
